@@ -3,64 +3,107 @@ SPEC = {
     'harness': 'hC28',
     'coq_dir': 'C28',
     'claimed': True,
-    'theorems': ['C28_unique_in_window', 'C28_unexpired_fee_chainid', 'C28_window_cache_exact', 'C28_tx_index_exact',
-                 'C28_all_signed_refuted', 'C28_all_signed_partial', 'C28_chain_clean_partial', 'C28_fix_all_signed', 'C28_hypotheses_satisfiable'],
+    'theorems': ['C28_unique_in_window', 'C28_unexpired_fee_chainid', 'C28_group_members_unexpired', 'C28_group_members_whole',
+                 'C28_window_cache_exact', 'C28_tx_index_exact',
+                 'C28_all_signed_oracle_refuted', 'C28_all_signed_oracle_partial', 'C28_chain_clean_oracle_partial',
+                 'C28_fix_all_signed_oracle',
+                 'C28_node_refines', 'C28_node_chain_checked', 'C28_all_signed_refuted', 'C28_all_signed_partial',
+                 'C28_pool_signed_partial', 'C28_chain_clean_partial', 'C28_fix_all_signed', 'C28_hypotheses_satisfiable'],
     'allowed_axioms': [],
     'shard': 16,
     'rule': 'one case = one history on a fresh memdb test node (pack window low/high from {(2,3),(1,1),(1,2),(3,2)}, miner '
             'stopped, three funded accounts): peer blocks built by hand on a factory node (real TxHash/StateHash; when the '
             'factory would drop a transaction the block is rebuilt with the intended list) and delivered through '
             'BlockChain.ProcessBlock(pid = a peer), producer blocks through ProcessBlock(pid = "self"), offers to the '
-            'mempool through SendTx. Transactions: coins transfers and padded "none" transactions with Expire 0 / height '
-            '/ block time / TxHeight (inside, at both ends of and outside the window) / raw edge values, fee exact / one '
-            'below / zero / double / at and above the cap, sizes around the 1000-byte fee step and the 100000-byte limit, '
-            'wrong chain id; twins (same body signed by another account: same Hash, valid) and forgeries (another '
-            'account\'s public key + random signature). Streams: linear (6-12 random steps: valid blocks, mixed blocks with '
-            'repeats of earlier transactions / twins / in-block duplicates / invalid ones, producer lists, pool offers, '
-            'forgeries of unseen bodies, empty blocks, block times 0/-1/+1..4 after the parent), window (one TxHeight '
-            'transaction offered again at every height to the end of its window and beyond), reorg (trunk to height '
-            '13-14, side branch from 2-4 below the tip repeating transactions of the replaced blocks, of the common prefix '
-            'and of itself; later blocks repeat transactions of both branches; sometimes the old trunk wins again), '
-            'reorg-window (a TxHeight transaction exactly low+high blocks below the tip is offered again by the side '
-            'branch that replaces the tip: the disconnection must bring its block back into the cache window), edge steps '
-            '(block time / height exactly at, one before and one after the end of validity, both ends of the TxHeight window), forgery '
-            '/ linear-any (T pooled, then a block with T\'s body under another key: the open finding). The '
-            'connectBlock/disconnectBlock sequence is derived from the tip before/after each delivery (a failed '
-            're-organisation is not rolled back by the node). Observed: error class per connection, stored list of '
-            'producer blocks, pool acceptance, and at the end the chain block by block, GetTx of every table entry and '
-            'the duplicate query (EventTxHashList) for every table entry. kinds are prefixed guarded/unrestricted by '
-            'whether pool_guard holds for the history. non-trivial = the history contains a rejected block, a producer '
-            'block that lost transactions, or a re-organisation; distinct = distinct Gallina case terms',
+            'mempool through SendTx (groups as group.Tx()). Transactions: coins transfers and padded "none" transactions '
+            'with Expire 0 / height / block time / TxHeight (inside, at both ends of and outside the window) / raw edge '
+            'values, fee exact / one below / zero / double / at and above the cap, sizes around the 1000-byte fee step and '
+            'the 100000-byte limit, wrong chain id; twins (same body signed by another account: same Hash, valid) and '
+            'forgeries (another account\'s public key + random signature). Groups of 2-4 members (CreateTxGroup, fee '
+            'settled for the signed sizes, every member signed by its own account; members with every kind of Expire '
+            'incl. TxHeight): valid; with an expired member at / one before / one after the end of its validity; head fee '
+            'one below the sum / above the cap, a paying later member, GroupCount+1, a later member re-signed over another '
+            'Header (same Hash), a broken Next, a member with a foreign chain id; block lists that break a group (two '
+            'members swapped, first / last member missing, one member alone, a member twice, the group twice, a single '
+            'transaction in the middle); a member replaced by a forgery. Streams with single transactions: linear (6-12 '
+            'random steps: valid blocks, mixed blocks with repeats of earlier transactions / twins / in-block duplicates / '
+            'invalid ones, producer lists, pool offers, forgeries of unseen bodies, empty blocks, block times 0/-1/+1..4 '
+            'after the parent), window (one TxHeight transaction offered again at every height to the end of its window '
+            'and beyond), reorg (trunk to height 13-14, side branch from 2-4 below the tip repeating transactions of the '
+            'replaced blocks, of the common prefix and of itself; later blocks repeat transactions of both branches; '
+            'sometimes the old trunk wins again), reorg-window (a TxHeight transaction exactly low+high blocks below the tip '
+            'is offered again by the side branch that replaces the tip: the disconnection must bring its block back into '
+            'the cache window), edge steps (block time / height exactly at, one before and one after the end of validity, '
+            'both ends of the TxHeight window), forgery / linear-any (T pooled, then a block with T\'s body under another '
+            'key: the open finding). Streams with groups: group-linear (5-10 '
+            'steps: group blocks from peers and for the producer among single transactions, earlier groups or parts of '
+            'them again, pooled-then-packed groups, forged members of unpooled groups, group offers), group-window (a '
+            'group with one or two TxHeight members offered again, whole or one member alone, at every height to the end '
+            'of the window and beyond), group-reorg (trunk whose last blocks carry groups; side branch from 2-3 below the '
+            'tip, half of the time with heavier blocks so that it wins at equal or lower height, repeating groups of the '
+            'replaced blocks / of the common prefix / parts of them / its own; afterwards groups of both branches again, '
+            'and a group that the mempool took back in a block with a mis-signed first or later member), group-hdrempty '
+            '(the last member\'s nonce is ground, some hundred tries, until the group hash decodes as an empty protobuf '
+            'Transactions - the value for which the member-level Transaction.IsExpire ignores the member\'s Expire; a '
+            'member expired by height / block time / TxHeight window or at the edge, through a peer block, through the '
+            'producer path, after a pool offer, next to the same group with an ordinary header, and once more one block '
+            'later), group-forge / group-linear-any (a pooled group in a block with a mis-signed first member: the open '
+            'finding; with a mis-signed later member: ErrSign). The connectBlock/disconnectBlock sequence is derived from '
+            'the tip before/after each delivery (a failed re-organisation is not rolled back by the node). Observed: error '
+            'class per connection, stored list of producer blocks, pool acceptance, before every delivery the Hash ids the '
+            'mempool reports (EventCheckTxsExist over the whole table; must equal the model\'s pool), after a delivery with '
+            'disconnections the same question sent with low priority behind the EventDelBlock messages (adopted by the '
+            'model if every id is a pooled or a just-disconnected transaction), and at the end the chain block by block, '
+            'GetTx of every table entry and the duplicate query (EventTxHashList) for every table entry. kinds are prefixed '
+            'guarded/unrestricted by whether the guard of C28_all_signed_partial holds for the history. non-trivial = the '
+            'history contains a rejected block, a producer block that lost transactions, or a re-organisation; distinct = '
+            'distinct Gallina case terms',
     'trusted_base': [
-        'hashes are abstract ids: Hash() determines the body (Expire, own 16-byte prefix) and the 16-byte prefixes of one '
-        'history do not collide (hypothesis hash_ok of the theorems; checked on every case table by table_ok)',
+        'hashes are abstract ids: Hash() determines the body (Expire, GroupCount, Next, Fee, ChainID, own 16-byte prefix; not '
+        'Header) and the 16-byte prefixes of one history do not collide (hypothesis hash_ok of the theorems; checked on every '
+        'case table by table_ok); Header and Next are ids in the same space (0 = nil)',
         'Transaction.CheckSign is an oracle (field tsig, computed by the harness with the real CheckSign); FullHash() '
-        'determines it',
-        'execution beyond checkTx is not modelled: every signer is funded, so no transaction gets an error receipt for '
-        'lack of fee balance; TxHash/StateHash of peer blocks are right whenever the model accepts (factory-built)',
-        'the mempool is environment: per delivery the set of Hash() values it reports (queried just before the '
-        'delivery) is an input; all connections of one delivery use the same set (generators keep forgeries of '
-        'pooled/replaced bodies out of multi-block deliveries)',
+        'determines it (hypothesis fh_ok of the node theorems, checked by table_ok)',
+        'execution beyond checkTx / checkTxGroup is not modelled: every signer is funded, so no transaction or group gets '
+        'an error receipt for lack of fee balance; every transaction carries a Signature (GetRealFee adds 300 bytes '
+        'otherwise); TxHash/StateHash of peer blocks are right whenever the model accepts (factory-built)',
+        'the mempool\'s admission decision is an input (observed acceptance per offer; the oracle checks that no mis-signed '
+        'offer is accepted); its content is model state: accepted items, removal by Hash() when a block is connected, '
+        'eviction by Transaction.IsExpire for the next height, and - observed, because it depends on the order in which '
+        'the mempool reads EventAddBlock (high priority) and EventDelBlock (low priority) - which transactions of '
+        'disconnected blocks came back (NSync; the theorems hold for every such answer). Within one multi-block '
+        'delivery the generators keep forgeries of pooled/replaced bodies out',
         'which branch the node follows is not modelled (C25): the operation list is derived from the observed tips',
     ],
     'assumptions': [
-        'single transactions (no groups), main chain (not para), TxHeight enabled, ForkCheckTxDup / ForkTxHeight / '
-        'ForkBlockCheck / ForkCheckBlockTime active at every height, DisableTxDupCheck off',
+        'main chain (not para, no para executors in groups), TxHeight enabled, ForkCheckTxDup / ForkTxHeight / ForkBlockCheck / '
+        'ForkCheckBlockTime / ForkTxGroup active at every height, DisableTxDupCheck off',
         'genesis block: positive block time; its transactions are never offered again',
-        'the node\'s own producer only hands over transactions that passed the mempool\'s signature check (self_signed)',
+        'the node\'s own producer only hands over transactions that passed the mempool\'s signature check (self_signed); the '
+        'mempool accepts only correctly signed offers (noffers_signed; C22)',
         'deliveries are sequential',
     ],
     'manifest': {
-        'level_text': 'full for uniqueness (whole chain, hence within every validity window), non-expiry at the block\'s '
-                      'height and time, fee and chain-id, over all histories of connections and disconnections (unbounded '
-                      'Coq theorems; the height-window cache is shown to hold exactly the TxHeight transactions of the '
-                      'last low+high blocks, the index exactly the chain\'s hashes); PARTIAL for signatures: refuted at '
-                      'full strength (open finding C28-KF1, reproduced on the node), proved when no mis-signed block '
-                      'transaction shares its Hash() with a pooled one, and proved for the candidate repair (FullHash match)',
+        'level_text': 'full for uniqueness (whole chain, hence within every validity window), non-expiry of every transaction '
+                      'incl. every group member at the block\'s height and time, fee and chain-id (single: per transaction; '
+                      'group members: only as whole, ordered groups whose first member pays for all), over all histories of '
+                      'connections and disconnections of blocks with single transactions and groups (unbounded Coq theorems; '
+                      'the height-window cache is shown to hold exactly the TxHeight transactions of the last low+high '
+                      'blocks, the index exactly the chain\'s hashes; the member-level IsExpire quirk of a group hash that '
+                      'decodes as an empty group (C22-KF4, C30-KF4) does NOT reach the chain: both block paths use '
+                      'Transactions.IsExpire, reproduced with ground headers); PARTIAL for signatures: refuted at full '
+                      'strength against the node\'s own pool (open finding C28-KF1, reproduced on the node, also through the '
+                      'first member of a pooled group and through groups the mempool took back after a re-organisation), '
+                      'proved when every mis-signed block transaction whose Hash() is pooled is the pooled transaction itself '
+                      '(same FullHash), and proved without guard for the candidate repair (FullHash match)',
         'level_note': 'hash/prefix collision-freeness and the signature scheme are hypotheses; balances, receipts and state '
-                      'hashes are outside the model; the mempool\'s answer is an input; branch choice is C25',
-        'technique': 'Coq proof (one invariant by induction over connect/disconnect histories) + in-kernel correspondence '
-                     'check against test nodes',
+                      'hashes are outside the model; the mempool\'s admission and the timing-dependent return of '
+                      'disconnected transactions are inputs, its content otherwise model state compared before every '
+                      'delivery; branch choice is C25; for group members the chain id is compared only under '
+                      'ForkTxChainIDStrict (as the code does at those heights)',
+        'technique': 'Coq proof (one invariant by induction over connect/disconnect histories; refinement from the node with a '
+                     'concrete pool to the model with pool answers as inputs) + in-kernel correspondence check against '
+                     'test nodes',
     },
     'harness_timeout': {'quick': 400, 'thorough': 3600},
 }
